@@ -303,6 +303,12 @@ def gen_response_stream(r, ctx, method):
             base_h.append(("Content-Length", r.choice([str(len(data)), "0", r.choice(NUMS)])))
     else:
         body = data
+    r1 = random.Random("C09:conn:" + str(ctx["req_id"]))
+    if r1.random() < 0.12:
+        # the response nominates fields it carries itself (registered, end-to-end ones) as hop-by-hop
+        mine = [k for k, _ in base_h if k not in ("X-Verif-Rid",)]
+        if mine:
+            base_h.insert(r1.randrange(len(base_h) + 1), ("Connection", ", ".join(r1.sample(mine, r1.randrange(1, min(3, len(mine)) + 1)))))
     lines = gen_headers(r, ctx, base_h, True)
     end = r.choice(["\n", "", "\r", "\r\n\r\n"]) if P(r, 0.07) else "\r\n"
     msg = (line + "".join(lines) + end).encode("latin1", "replace") + body
